@@ -478,6 +478,123 @@ func genC12() {
 		g.def("image_annotation_stores", "list (string * string)", c12Pairs(st), "annotations[\"key\"] = value stores, in source order")
 	}
 
+	// ---- BuildImageFromLayers: one history entry per layer -----------------------
+	if fdImg != nil {
+		single, multi, thr := "", "", int64(-1)
+		haveSingle, haveMulti := false, false
+		var hist [][2]string
+		histCreated := ""
+		ast.Inspect(fdImg, func(n ast.Node) bool {
+			switch x := n.(type) {
+			case *ast.AssignStmt:
+				if len(x.Lhs) == 1 && len(x.Rhs) == 1 && exprText(x.Lhs[0]) == "comment" && x.Tok == token.DEFINE {
+					if v, ok := strLit(x.Rhs[0]); ok {
+						single, haveSingle = v, true
+					}
+				}
+			case *ast.IfStmt:
+				be, ok := x.Cond.(*ast.BinaryExpr)
+				if !ok || be.Op != token.GTR || exprText(be.X) != "len(layers)" || x.Else != nil || x.Init != nil {
+					return true
+				}
+				for _, st := range x.Body.List {
+					if as, ok := st.(*ast.AssignStmt); ok && len(as.Lhs) == 1 && exprText(as.Lhs[0]) == "comment" && as.Tok == token.ASSIGN {
+						if v, ok := strLit(as.Rhs[0]); ok {
+							if t, ok := intLit(be.Y); ok {
+								multi, haveMulti, thr = v, true, t
+							}
+						}
+					}
+				}
+			case *ast.CompositeLit:
+				if exprText(x.Type) != "v1.History" {
+					return true
+				}
+				for _, el := range x.Elts {
+					kv, ok := el.(*ast.KeyValueExpr)
+					if !ok {
+						continue
+					}
+					k := exprText(kv.Key)
+					if v, ok := strLit(kv.Value); ok {
+						hist = append(hist, [2]string{k, v})
+					} else if k == "Created" {
+						histCreated = strings.Join(strings.Fields(exprText(kv.Value)), "")
+					} else {
+						hist = append(hist, [2]string{k, "<" + exprText(kv.Value) + ">"})
+					}
+				}
+			}
+			return true
+		})
+		if !haveSingle || !haveMulti {
+			fail("%s: BuildImageFromLayers: `comment := <literal>` / `if len(layers) > N { comment = <literal> }` not found", relImg)
+		}
+		if hist == nil {
+			fail("%s: BuildImageFromLayers: v1.History{...} literal not found", relImg)
+		}
+		if histCreated != "v1.Time{Time:created}" {
+			fail("%s: BuildImageFromLayers: History.Created is %q, expected v1.Time{Time: created}", relImg, histCreated)
+		}
+		cfgCreated := ""
+		ast.Inspect(fdImg, func(n ast.Node) bool {
+			if as, ok := n.(*ast.AssignStmt); ok && len(as.Lhs) == 1 && len(as.Rhs) == 1 && exprText(as.Lhs[0]) == "cfg.Created" {
+				cfgCreated = strings.Join(strings.Fields(exprText(as.Rhs[0])), "")
+			}
+			return true
+		})
+		if cfgCreated != "v1.Time{Time:created}" {
+			fail("%s: BuildImageFromLayers: cfg.Created is assigned %q, expected v1.Time{Time: created}", relImg, cfgCreated)
+		}
+		g.def("history_single_layer_comment", "string", coqStr(single), "comment := <literal> in BuildImageFromLayers")
+		g.def("history_multi_layer_comment", "string", coqStr(multi), "comment = <literal> when len(layers) > history_multi_layer_threshold")
+		g.def("history_multi_layer_threshold", "nat", fmt.Sprintf("%d", thr), "if len(layers) > N")
+		g.def("history_literals", "list (string * string)", c12Pairs(hist), "fields of the v1.History literal appended per layer (<x> = the variable x); Created is v1.Time{Time: created}, as is cfg.Created")
+	}
+
+	// ---- ImageConfiguration.Validate: the service-bundle entrypoint -----------------
+	{
+		const relCfg = "pkg/build/types/image_configuration.go"
+		typ, cmd := "", ""
+		if fd := findFunc(relCfg, "ImageConfiguration", "Validate"); fd != nil {
+			ast.Inspect(fd, func(n ast.Node) bool {
+				is, ok := n.(*ast.IfStmt)
+				if !ok {
+					return true
+				}
+				be, ok := is.Cond.(*ast.BinaryExpr)
+				if !ok || be.Op != token.EQL || exprText(be.X) != "ic.Entrypoint.Type" {
+					return true
+				}
+				if v, ok := strLit(be.Y); ok && strings.Contains(exprText(is.Body), "ic.ValidateServiceBundle()") {
+					typ = v
+				}
+				return true
+			})
+		}
+		nAssign := 0
+		if fd := findFunc(relCfg, "ImageConfiguration", "ValidateServiceBundle"); fd != nil {
+			for _, st := range fd.Body.List {
+				as, ok := st.(*ast.AssignStmt)
+				if !ok || len(as.Lhs) != 1 || len(as.Rhs) != 1 {
+					continue
+				}
+				l := exprText(as.Lhs[0])
+				if strings.HasPrefix(l, "ic.Entrypoint.") {
+					nAssign++
+					if v, ok := strLit(as.Rhs[0]); ok && l == "ic.Entrypoint.Command" {
+						cmd = v
+					}
+				}
+			}
+		}
+		if typ == "" || cmd == "" || nAssign != 1 {
+			fail("%s: Validate / ValidateServiceBundle: `if ic.Entrypoint.Type == <literal> { … ic.ValidateServiceBundle() }` and a single `ic.Entrypoint.Command = <literal>` not found", relCfg)
+		}
+		g.def("service_bundle_type", "string", coqStr(typ), "entrypoint type for which Validate calls ValidateServiceBundle")
+		g.def("service_bundle_command", "string", coqStr(cmd), "ic.Entrypoint.Command set by ValidateServiceBundle")
+	}
+
 	// does the copy BuildImageFromLayers works on carry VCSUrl?
 	{
 		const relCfg = "pkg/build/types/image_configuration.go"
